@@ -58,6 +58,25 @@ Theorem C15_script_spawns_exactly_configured :
 Proof. exact run_script_log. Qed.
 Print Assumptions C15_script_spawns_exactly_configured.
 
+(* argv[0] and the file to execute: the program string is handed over untouched, so the
+   child's argv is program :: arguments and the lookup (absolute / relative to the configured
+   cwd / PATH search) depends on the supplied program string and the last cwd call only.
+   (What the OS makes of it is observed end to end: the helper reports argv[0] and
+   /proc/self/exe.) *)
+Theorem C15_argv0_and_lookup_untouched :
+  forall c b s, validate c b = Ok s ->
+  spec_argv s = c_program b :: c_args b /\ spec_lookup s = lookup_of (c_program b) (c_cwd b).
+Proof. exact spec_exec_view. Qed.
+Print Assumptions C15_argv0_and_lookup_untouched.
+
+Theorem C15_script_program_args_cwd :
+  forall p cs,
+  c_program (view (command_new p) cs) = p /\
+  c_args (view (command_new p) cs) = arg_texts cs /\
+  c_cwd (view (command_new p) cs) = last_some cwd_of_call cs None.
+Proof. exact view_exec_view. Qed.
+Print Assumptions C15_script_program_args_cwd.
+
 (* environment: replaying any sequence of env writes leaves no duplicate key, gives every
    key the value written last, and orders the keys by first write *)
 Theorem C15_env_last_wins :
